@@ -87,6 +87,11 @@ class Plugin(BasePlugin):
             else:
                 meths.append(['peek'])
         f = {} if rng.random() < 0.6 else gen.filter_(rng, docs[0] if docs else {}, depth=1)
+        if docs and rng.random() < 0.12:
+            # the documents named by _id, in another order than they were inserted (and one absent)
+            ids = [d['_id'] for d in docs] + [99]
+            rng.shuffle(ids)
+            f = {'_id': {'$in': ids[:rng.choice([2, 3, len(ids)])]}}
         return {'docs': docs, 'filter': f, 'sort': sortspec() if rng.random() < 0.6 else [],
                 'skip': rng.choice(vals), 'limit': rng.choice(vals + [-1, -2]), 'meths': meths,
                 'count_skip': rng.choice(vals), 'count_limit': rng.choice([None, None, 1, 2, n + 1, 0])}
